@@ -110,7 +110,7 @@ def classify_actor(name: str) -> str:
 
 @contextlib.contextmanager
 def instrument(rec: Rec, poison: dict) -> Iterator[None]:
-    from kopf._cogs.aiokits import aioadapters, aiobindings, aiotasks
+    from kopf._cogs.aiokits import aiobindings, aiotasks
     from kopf._core.engines import activities, admission, daemons, posting
     from kopf._core.intents import causes
     from kopf._core.reactor import observation, orchestration, processing, queueing, running
@@ -212,11 +212,8 @@ def instrument(rec: Rec, poison: dict) -> Iterator[None]:
 
     patch(running, "activities", _Proxy(activities, run_activity=r_run_activity))
 
-    async def r_raise_flag(flag: Any) -> None:
-        await aioadapters.raise_flag(flag)
-        rec.add("ready")
-
-    patch(running, "aioadapters", _Proxy(aioadapters, raise_flag=r_raise_flag))
+    # (the ready flag is observed ON THE FLAG ITSELF — `run_history` wraps the `set` of the flag it hands to operator() —, not at
+    #  the call of `aioadapters.raise_flag`: whoever raises it, by whatever means, is seen)
 
     holder: dict[str, Any] = {}
     orig_sca = running.startup_cleanup_activities
@@ -391,6 +388,19 @@ def instrument(rec: Rec, poison: dict) -> Iterator[None]:
 
     patch(processing, "process_resource_event", p_process_resource_event)
 
+    # ---- the poisoned orchestrator: its next adjustment of the ensemble raises (a failure of the orchestrator's OWN loop: like
+    #      the poisoned event, an error no machinery of kopf is meant to swallow) ------------------------------------------
+    orig_adjust = orchestration.adjust_tasks
+
+    async def o_adjust_tasks(**kw: Any) -> Any:
+        if poison.get("adjust") and not poison.get("adjust_fired"):
+            poison["adjust_fired"] = True
+            rec.add("poisoned", "orchestrator")
+            raise Poison("poisoned adjustment of the ensemble")
+        return await orig_adjust(**kw)
+
+    patch(orchestration, "adjust_tasks", o_adjust_tasks)
+
     # ---- the keep-alive task's withdrawal: `touch(lifetime=0)` in its `finally:` — the ATTEMPT and its outcome, also when
     #      no request ever leaves (no credentials: LoginError before the request) ------------------------------------------
     from kopf._core.engines import peering as _peering
@@ -444,11 +454,21 @@ def instrument(rec: Rec, poison: dict) -> Iterator[None]:
         # whose daemon: the stopper knows the object only through the daemon's logger
         oname = ((getattr(kw["daemon"].logger, "extra", None) or {}).get("k8s_ref") or {}).get("name")
         rec.add("stopperBegin", did, str(kw["reason"]), oname)
+        how = "ended"
         try:
             return await orig_stop_daemon(**kw)
+        except asyncio.CancelledError:
+            how = "cancelled"           # the STOPPER was cancelled (not: it gave the daemon up)
+            raise
+        except BaseException:  # noqa: BLE001
+            how = "failed"
+            raise
         finally:
             # OBSERVED cooperativity: did the daemon's task end within its stopper's patience, or was it given up ("orphaned")?
-            rec.add("stopperEnd", did, kw["daemon"].task.done(), oname)
+            # ... and HOW the stopper came to its end: on its own (after its whole procedure) or cut short; was the daemon's task
+            # ever asked to cancel (`Task.cancelling()`: requests not taken back)?
+            dtask = kw["daemon"].task
+            rec.add("stopperEnd", did, dtask.done(), oname, how, int(dtask.cancelling()) if hasattr(dtask, "cancelling") else None)
 
     patch(daemons, "stop_daemon", d_stop_daemon)
 
@@ -478,7 +498,7 @@ class PoisonMemo(dict):
 
 
 def _fault_rule(match: dict, fakeapi: Any) -> Any:
-    """HTTP 500 on every matching request from now on."""
+    """HTTP 500 (or `status`) on every matching request from now on."""
     def rule(req: dict) -> Any:
         if "method" in match and req["method"] != match["method"]:
             return None
@@ -486,7 +506,7 @@ def _fault_rule(match: dict, fakeapi: Any) -> Any:
             return None
         if "path_contains" in match and match["path_contains"] not in req["path"]:
             return None
-        return fakeapi.Fault("status", 500)
+        return fakeapi.Fault("status", int(match.get("status", 500)))
     return rule
 
 
@@ -664,6 +684,11 @@ def run_history(sc: dict, wall_limit: float = 30.0) -> dict:
             opkw["peering_name"] = "default"
         if sc.get("memo_poison") is not None:
             opkw["memo"] = PoisonMemo(int(sc["memo_poison"]), rec)
+        if sc.get("namespaced"):
+            # a NAMESPACED operator (`namespaces=[...]`, not cluster-wide): the namespace observer lists and WATCHES the namespaces
+            # (its own `queueing.watcher`: one more essential stream), the watchers are per (resource, namespace)
+            opkw["clusterwide"] = False
+            opkw["namespaces"] = list(sc["namespaced"]) if isinstance(sc["namespaced"], list) else ["ns"]
         st: dict[str, Any] = {"returned": None}
 
         # environment: the API server applies a peering PATCH at once but ANSWERS it late (`peering_response_latency` seconds):
@@ -701,7 +726,14 @@ def run_history(sc: dict, wall_limit: float = 30.0) -> dict:
             await op.start()
             if sc.get("empty_vault"):
                 _cred.Vault = real_vault  # type: ignore[misc]
-            assert op.task is not None and op.stop_flag is not None
+            assert op.task is not None and op.stop_flag is not None and op.ready_flag is not None
+            # the READY flag of this run: every raising of it is logged, whoever does it (operator() has not run a step yet)
+            ready_set = op.ready_flag.set
+
+            def logged_ready_set() -> None:
+                ready_set()
+                rec.add("ready")
+            op.ready_flag.set = logged_ready_set  # type: ignore[method-assign]
 
             def op_done(t: asyncio.Task) -> None:
                 how, exc = _how(t)
@@ -733,11 +765,24 @@ def run_history(sc: dict, wall_limit: float = 30.0) -> dict:
                     if c.get(kex, "ns", args[0]) is None:
                         c.create_raw(kex, "ns", args[0], {"spec": {"x": args[1] if len(args) > 1 else 0}})
                 elif kind == "watch_error":
-                    res = {"kex": kex, "crd": fakeapi.CRDS, "peering": fakeapi.CLUSTER_PEERING}[args[0]]
+                    res = {"kex": kex, "crd": fakeapi.CRDS, "peering": fakeapi.CLUSTER_PEERING, "ns": fakeapi.NAMESPACES}[args[0]]
                     c.break_watches(res, "error")
+                elif kind == "watch_http":
+                    # the LIST/WATCH requests of one resource are answered with an HTTP error from now on, for good (403: the
+                    # permissions were taken away; 5xx: beyond the retries of the client); the running stream is cut, the re-list
+                    # meets the error: the stream fails with an API error (not with an in-stream ERROR event)
+                    res, match = {"kex": (kex, {"path_contains": kex.plural}),
+                                  "crd": (fakeapi.CRDS, {"path_contains": fakeapi.CRDS.plural}),
+                                  "ns": (fakeapi.NAMESPACES, {"path_equals": "/api/v1/namespaces"})}[args[0]]
+                    c.fault_rules.append(_fault_rule({"method": "GET", "status": int(args[1]), **match}, fakeapi))
+                    c.break_watches(res, "eof")
                 elif kind == "poison":          # the next event of that object with spec.x == value fails the worker
                     poison["spec_x"] = args[1]
                     c.edit(kex, "ns", args[0], {"spec": {"x": args[1]}})
+                elif kind == "orch_poison":      # the orchestrator's next adjustment raises; a CRD event makes it adjust
+                    poison["adjust"] = True
+                    extra_n += 1
+                    c.add_resource(fakeapi.ResourceDef("kopf.dev", "v1", f"extras{extra_n}", f"Extra{extra_n}"))
                 elif kind == "faults":           # 5xx on matching requests from now on
                     c.fault_rules.append(_fault_rule(args[0], fakeapi))
                 elif kind == "new_crd":          # a CRD event makes the resource observer re-scan the group
